@@ -396,6 +396,8 @@ type callResult struct {
 	Out      *vmcommon.VMOutput
 	DepCalls int
 	DepKinds []string
+	// set when the call changed the input structure it was given (argument list with spare capacity, caller, recipient)
+	InputMutated string
 	Pre      map[string]*hAccount // snapshot of the shard before the call
 	AllocB   uint64
 }
@@ -435,8 +437,12 @@ func (w *hWorld) exec(cs *callSpec) *callResult {
 		res.Status, res.Err = 1, err
 		return res
 	}
+	// the argument list is handed over with SPARE CAPACITY behind it (as a list cut out of a larger buffer has): a callee that appends to
+	// a prefix of it, or writes into it, changes what the caller still sees - compared with cs.Args after the call
+	argv := make([][]byte, len(cs.Args), len(cs.Args)+3)
+	copy(argv, cloneArgs(cs.Args))
 	in := &vmcommon.ContractCallInput{
-		VMInput: vmcommon.VMInput{CallerAddr: append([]byte(nil), cs.Caller...), Arguments: cloneArgs(cs.Args), CallValue: new(big.Int).Set(cs.Value),
+		VMInput: vmcommon.VMInput{CallerAddr: append([]byte(nil), cs.Caller...), Arguments: argv, CallValue: new(big.Int).Set(cs.Value),
 			CallType: cs.CallType, GasProvided: cs.Gas, GasLocked: cs.Locked, ReturnCallAfterError: cs.RAE},
 		RecipientAddr: append([]byte(nil), cs.Rcpt...), Function: cs.Fn,
 	}
@@ -465,6 +471,27 @@ func (w *hWorld) exec(cs *callSpec) *callResult {
 	}()
 	runtime.ReadMemStats(&ms1)
 	res.AllocB = ms1.TotalAlloc - ms0.TotalAlloc
+	switch {
+	case len(in.Arguments) != len(cs.Args):
+		res.InputMutated = fmt.Sprintf("len(Arguments) changed from %d to %d", len(cs.Args), len(in.Arguments))
+	case !bytes.Equal(in.CallerAddr, cs.Caller) || !bytes.Equal(in.RecipientAddr, cs.Rcpt):
+		res.InputMutated = "CallerAddr / RecipientAddr changed"
+	default:
+		for i := range cs.Args {
+			if !bytes.Equal(argv[i], cs.Args[i]) {
+				res.InputMutated = fmt.Sprintf("Arguments[%d] changed from %x to %x", i, cs.Args[i], argv[i])
+				break
+			}
+		}
+		if spare := argv[:cap(argv)]; res.InputMutated == "" {
+			for i := len(cs.Args); i < len(spare); i++ {
+				if spare[i] != nil {
+					res.InputMutated = fmt.Sprintf("the spare slot %d behind the %d arguments was written (%x)", i, len(cs.Args), spare[i])
+					break
+				}
+			}
+		}
+	}
 	res.DepCalls = w.plan.count
 	res.DepKinds = w.plan.kinds
 	w.plan = nil
